@@ -9,7 +9,9 @@ package bifrost_rpc_access
 //@ func (*LookupRpcServiceRequest).UnmarshalComponentID
 //@   modifies r
 //@   ensures ret == nil ==> b58ok(componentID) && lrOK(b58dec(componentID)) && r.ServiceId == lrService(b58dec(componentID)) && r.ServerId == lrServer(b58dec(componentID))
-//@ lemma componentid-roundtrip: forall a string, b string :: b58ok(b58enc(lrPB(a, b))) && lrOK(b58dec(b58enc(lrPB(a, b)))) && lrService(b58dec(b58enc(lrPB(a, b)))) == a && lrServer(b58dec(b58enc(lrPB(a, b)))) == b
+// (a request that names a service: the empty request encodes to the empty string, which the base58
+// decoder refuses - it is not a valid lookup either: Validate demands a service ID)
+//@ lemma componentid-roundtrip: forall a string, b string :: a != "" ==> b58ok(b58enc(lrPB(a, b))) && lrOK(b58dec(b58enc(lrPB(a, b)))) && lrService(b58dec(b58enc(lrPB(a, b)))) == a && lrServer(b58dec(b58enc(lrPB(a, b)))) == b
 //@ func NewLookupRpcServiceRequest
 //@   ensures ret != nil && ret.ServiceId == serviceID && ret.ServerId == serverID
 //@   fresh ret
